@@ -188,11 +188,12 @@ instance : LawfulFloatLike ERat where
       · left
         have hn : 0 ≤ q.num := Rat.num_nonneg.2 hq
         exact Int.tdiv_nonneg hn (Int.natCast_nonneg _)
-  sub_sq_comm a b ha hb := by
-    cases a <;> cases b <;> simp [FloatLike.finite, ERat.isNaN, ERat.isInf] at ha hb
+  add_comm x y := by
+    show ERat.add x y = ERat.add y x
+    cases x <;> cases y <;> simp [ERat.add, Rat.add_comm]
+  sub_sq_comm a b := by
+    cases a <;> cases b <;> simp [ERat.sub, ERat.neg, ERat.add, ERat.mul, ERat.esgn, ERat.ofSign]
     rename_i p q
-    simp only [fl_sub, fl_mul, ERat.sub, ERat.neg, ERat.add, ERat.mul]
-    congr 1
     rw [← Rat.sub_eq_add_neg, ← Rat.sub_eq_add_neg, ← Rat.neg_sub q p, Rat.neg_mul, Rat.mul_neg, Rat.neg_neg]
 
 end SerfModel.ERat
